@@ -72,8 +72,91 @@ pub const CRASH_POINTS: &[&str] = &[
   "begin_write",
 ];
 
+/// Thorough tier: the first seeds of a batch enumerate EVERY crash position of
+/// one small history: every mutating disk operation and every hit of every
+/// named point, each under the three recovery images.
+fn gen_c13_enumerated(seed: u64) -> Option<Scenario> {
+  let index = seed & 0xffff_ffff;
+  let base = seed >> 32;
+  if index >= 20_000 {
+    return None;
+  }
+  // one small history per batch
+  let mut sc = base_scenario(base.wrapping_mul(0x9e37_79b9).wrapping_add(77) * 8, false);
+  let mut mined = 0usize;
+  let mut keep = 0usize;
+  for (i, op) in sc.ops.iter().enumerate() {
+    if let Op::Mine(b) = op {
+      mined += b.len();
+    }
+    keep = i + 1;
+    if mined >= 7 && matches!(op, Op::Update(_)) {
+      break;
+    }
+  }
+  sc.ops.truncate(keep);
+  if !matches!(sc.ops.last(), Some(Op::Update(_))) {
+    sc.ops.push(Op::Update(UpdateSpec {
+      lag: 31,
+      ..Default::default()
+    }));
+  }
+  sc.seed = seed;
+  // probe
+  let mut ex = Exec::new(&sc.config, sc.seed);
+  let mut positions: Vec<(usize, DiskFault)> = Vec::new();
+  for (i, op) in sc.ops.iter().enumerate() {
+    match op {
+      Op::Mine(b) => ex.mine(b),
+      Op::Update(u) => {
+        let r = ex.update(u);
+        if r.result.is_err() {
+          break;
+        }
+        for recovery in [Recovery::Clean, Recovery::Torn, Recovery::AllWritten] {
+          for op in 1..=r.outcome.disk_ops {
+            positions.push((i, DiskFault::CrashAtOp { op, recovery }));
+          }
+          for (name, count) in &r.outcome.points {
+            if !CRASH_POINTS.contains(&name.as_str()) {
+              continue;
+            }
+            for nth in 0..*count {
+              positions.push((
+                i,
+                DiskFault::CrashAtPoint {
+                  point: name.clone(),
+                  nth,
+                  recovery,
+                },
+              ));
+            }
+          }
+        }
+      }
+      _ => {}
+    }
+  }
+  ex.finish();
+  let total = positions.len() as u64;
+  if index >= total {
+    return None;
+  }
+  let (op_index, fault) = positions.swap_remove(index as usize);
+  if let Op::Update(u) = &mut sc.ops[op_index] {
+    u.disk_fault = Some(fault);
+  }
+  sc.profile = format!("C13/enumerated total={total} index={index}");
+  Some(sc)
+}
+
 /// Run the history fault-free and place one fault in it.
 pub fn gen_c13(seed: u64, thorough: bool) -> Scenario {
+  if thorough
+    && let Some(sc) = gen_c13_enumerated(seed)
+  {
+    return sc;
+  }
   let mut sc = base_scenario(seed, thorough);
   let mut frng = Rng::new(seed).fork("fault-placement");
 
@@ -383,6 +466,15 @@ pub fn run_c13(sc: &Scenario) -> RunReport {
   }
 
   ctx.report.faults.insert(format!("fired.{fault_kind}"), u64::from(fault_seen));
+  if let Some(rest) = sc.profile.strip_prefix("C13/enumerated ") {
+    for part in rest.split_whitespace() {
+      if let Some((k, val)) = part.split_once('=')
+        && let Ok(n) = val.parse::<u64>()
+      {
+        ctx.report.facts.insert(format!("c13.enum.{k}"), n);
+      }
+    }
+  }
   let report = finish_report(ex, std::mem::take(&mut ctx.report), sc, final_digest);
   ctx.report = report;
 
